@@ -1,7 +1,7 @@
 (* C09 — freeze() preserves outputs bit-for-bit, is idempotent and compacts storage. *)
 From Coq Require Import String List ZArith Bool.
-From QV Require Import Model.Module Model.ModuleFacts Proofs.ModuleProofs.
-From QD Require Import GenMod TieMod.
+From QV Require Import Lib.Res Lib.Tensor Model.Pack Proofs.PackProofs Model.Module Model.ModuleFacts Proofs.ModuleProofs.
+From QD Require Import GenMod TieMod GenC04 TieC04.
 Import ListNotations.
 Open Scope string_scope.
 
@@ -10,7 +10,7 @@ Open Scope string_scope.
 Theorem C09_source_facts :
   src_qweight_call = ["self.weight"; "qtype=self.weight_qtype"; "axis=0"; "group_size=self.weight_group_size"; "optimizer=self.optimizer"] /\
   src_qweight_early = exp_qweight_early /\ src_freeze_body = exp_freeze_body.
-Proof. repeat split; [apply tie_qweight_call | apply tie_qweight_early | apply tie_freeze_body]. Qed.
+Proof. exact (conj tie_qweight_call (conj tie_qweight_early tie_freeze_body)). Qed.
 Print Assumptions C09_source_facts.
 
 (* for every state (float or already frozen weights) and any deterministic quantization function: the
@@ -30,3 +30,28 @@ Theorem C09_history : forall (W Q : Type) (quant : W -> Q) (s : wstate W Q) (n :
   qweight W Q quant (Nat.iter n (freeze W Q quant) (freeze W Q quant s)) = qweight W Q quant s.
 Proof. exact frozen_stable. Qed.
 Print Assumptions C09_history.
+
+(* storage: the low-bit payload built on construction (pack_weights, as generated from the current source)
+   takes exactly ceil(rows * bits / 8) * (numel / rows) bytes, for every shape *)
+Theorem C09_payload_bytes : forall dev bits (t : tensor Z),
+  bits = 2 \/ bits = 4 -> wf t -> (1 <= dim0 t)%Z -> fits bits t ->
+  exists p, src_pack_weights dev t bits = Ok p
+    /\ zlen (data p) = ((dim0 t * bits + 7) / 8 * stride0 t)%Z /\ bytes (data p).
+Proof.
+  intros dev bits t Hb Hw Hd Hf. rewrite tie_pack_weights.
+  destruct (pack_roundtrip_all dev bits t Hb Hw Hd Hf) as [p [H1 [_ [H3 [H4 _]]]]].
+  exists p. split; [exact H1|]. split; [exact H3|exact H4].
+Qed.
+Print Assumptions C09_payload_bytes.
+
+(* along ANY history without a calibration pass (forwards, freezes, moves, copies, reloads in any order and
+   number) the outputs stay in the class they were in; once frozen, a model stays frozen *)
+Theorem C09_histories : forall act ops s,
+  ~ In LCalibrate ops -> Forall (fun fe => snd fe = l_epoch s) (ltrace act s ops).
+Proof. exact history_epoch_only. Qed.
+Print Assumptions C09_histories.
+
+Theorem C09_frozen_absorbing : forall act ops s,
+  l_frozen s = true -> Forall (fun fe => fst fe = true) (ltrace act s ops).
+Proof. exact history_frozen_absorbing. Qed.
+Print Assumptions C09_frozen_absorbing.
